@@ -119,8 +119,9 @@ def spec_option_block(has_spec, content, eng):
                         raise core.PathAbort("closing delimiter with trailing text: outside the claim")
                     k = i + 1
                     break
-        elif T(_sw(content.lstrip(), ":")):
-            while k < len(lines) and T(_sw(lines[k].lstrip(), ":")):
+        elif T(_sw(content.lstrip(), ":")) and not T(_sw(content.lstrip(), ":::")):
+            # ':key:' option lines; a line starting with ':::' is a nested colon fence, not an option
+            while k < len(lines) and T(_sw(lines[k].lstrip(), ":")) and not T(_sw(lines[k].lstrip(), ":::")):
                 k += 1
     return lines, k
 
